@@ -555,6 +555,11 @@ fn apply(mut d: Divan, call: &str) -> Divan {
         "skip_regex_m" => d.skip_regex(regex_lite::RegexBuilder::new(val).multi_line(true).build().unwrap()),
         "skip_regex_s" => d.skip_regex(regex_lite::RegexBuilder::new(val).dot_matches_new_line(true).build().unwrap()),
         "skip_regex_U" => d.skip_regex(regex_lite::RegexBuilder::new(val).swap_greed(true).build().unwrap()),
+        "color" => d.color(match val {
+            "auto" => None,
+            "always" => Some(true),
+            _ => Some(false),
+        }),
         "run_ignored" => d.run_ignored(),
         "run_only_ignored" => d.run_only_ignored(),
         "items_count" => d.items_count(val.parse::<u64>().unwrap()),
@@ -598,6 +603,15 @@ fn main() {
         // The runner-level options as resolved from builder calls, flags and
         // DIVAN_* variables (hook `runner_options`), and the limits the loop reads.
         println!("{}", show_runner(&d));
+        // The scalar settings (hook `runner_config`) and the runner's filter set
+        // evaluated on the paths of HX_PATHS (`\u{1f}`-separated).
+        println!("{}", divan::__verif::runner_config(&d));
+        let paths = std::env::var("HX_PATHS").unwrap_or_default();
+        let bits: String = paths
+            .split('\u{1f}')
+            .map(|p| if divan::__verif::runner_filter_is_match(&d, p) { '1' } else { '0' })
+            .collect();
+        println!("{bits}");
         return;
     }
     d.main();
